@@ -246,9 +246,12 @@ FailRes(h, st, ev) ==
   \cup Sel(~st.win.open, "C06.openatend")
 
 FailRaise(h, st, ev) ==
-  IF ev.type = "Hang" THEN {"C08.hang"}
-  ELSE IF h.valid THEN {"C08.raise." \o ev.type}
-  ELSE Sel(ev.type \in {"ValueError", "TypeError"}, "C08.raise." \o ev.type)
+  (IF ev.type = "Hang" THEN {"C08.hang"}
+   ELSE IF h.valid THEN {"C08.raise." \o ev.type}
+   ELSE Sel(ev.type \in {"ValueError", "TypeError"}, "C08.raise." \o ev.type))
+  \cup  \* a stopping request must end the run WITH a result (C09, C20)
+  (IF h.valid /\ st.stop # {} THEN {"C09.noresult"} ELSE {})
+  \cup (IF h.valid /\ st.cbRaised THEN {"C20.noresult"} ELSE {})
 
 Failed(h, st, ev) ==
   CASE ev.e = "EB"  -> FailEB(h, st, ev)
